@@ -158,6 +158,8 @@ def _median(ctx, cases=None):
         ((2, 2, 2), (3, 3, 3), dict(widths=(1,), modes=("constant",), values=None), "zero padding"),
         ((4, 1, 1), (5, 1, 1), dict(widths=(2, 2, 0, 0, 0, 0), modes=("constant", "edge", "constant", "constant", "constant", "constant"), values=(1, 0, 0, 0, 0, 0)), "1-d, k = 5"),
         ((2, 2, 2), (3, 3, 1), dict(widths=(1,), modes=("constant",) * 6, values=(0, 1, Fr(1, 4), Fr(3, 4), 1, 0)), "all faces different"),
+        ((3, 2, 1), (3, 3, 3), dict(widths=(1,), modes=("edge", "edge", "edge", "edge", "constant", "edge"), values=(1,)), "one-voxel-thick design under a 3-d kernel: the padding voxels above and below count"),
+        ((1, 3, 2), (3, 1, 3), dict(widths=(1,), modes=("constant",) * 6, values=(1, 0, 0, 0, Fr(1, 2), 0)), "flat along x, kernel 3 along x"),
     ]
     n = 0
     for shape, ks, cfgkw, label in cases:
@@ -267,9 +269,13 @@ def _distances(ctx):
     f = ix.function("fdtdx.objects.device.parameters.utils.nearest_index")
     ctx.unit(f.where())
     n = 0
-    for axis, metric in itertools.product(range(3), ("euclidean", "permittivity_differences_plus_average_permittivity")):
-        shape = tuple(3 if a == axis else 2 for a in range(3))
-        L = 3
+    DIFF = "permittivity_differences_plus_average_permittivity"
+    scopes = [(axis, metric, tuple(3 if a == axis else 2 for a in range(3))) for axis, metric in itertools.product(range(3), ("euclidean", DIFF))]
+    # degenerate extents: a block one voxel thick along z (pillars along x / y keep the configured metric) and pillars
+    # of height one (the difference metric has no differences: Euclidean fallback, i.e. |value - candidate|)
+    scopes += [(0, DIFF, (3, 2, 1)), (1, DIFF, (2, 3, 1)), (0, DIFF, (1, 2, 3)), (1, DIFF, (3, 1, 2)), (2, DIFF, (2, 3, 1))]
+    for axis, metric, shape in scopes:
+        L = shape[axis]
         it = ctx.fresh_interp()
 
         def vmap(it_, a, k):
@@ -292,7 +298,7 @@ def _distances(ctx):
         it.ext_overrides["jax.vmap"] = vmap
         values = arr("v", shape)
         allowed_values = NdArr((3,), [Rat.atom(("a", i)) for i in range(3)])
-        cand = [(0, 1, 2), (1, 1, 0), (2, 0, 0), (1, 2, 2)]
+        cand = [(0, 1, 2), (1, 1, 0), (2, 0, 0), (1, 2, 2)] if L == 3 else [(0,), (2,), (1,)]
         allowed_indices = NdArr((len(cand), L), [c for row in cand for c in row])
         try:
             res = it.call(it.closure_of(f), [], dict(values=values, allowed_values=allowed_values, axis=axis, allowed_indices=allowed_indices, return_distances=True, distance_metric=metric))
@@ -301,7 +307,7 @@ def _distances(ctx):
         idx, dist = res
         tr = [a for a in range(3) if a != axis]
         want_shape = (len(cand),) + tuple(shape[a] for a in tr)
-        name = f"nearest_index[axis={axis},{metric.split('_')[0]}]"
+        name = f"nearest_index[axis={axis},{metric.split('_')[0]}" + ("" if shape == tuple(3 if a == axis else 2 for a in range(3)) else f",block {shape}") + "]"
         if not (isinstance(dist, NdArr) and dist.shape == want_shape):
             ctx.ob("R24.3", name, False, "one distance per candidate and pillar", getattr(dist, "shape", dist), want_shape)
             continue
@@ -317,7 +323,7 @@ def _distances(ctx):
                     full[tr[0]], full[tr[1]] = p
                     col.append(Rat.atom(("v",) + tuple(full)))
                 av = [Rat.atom(("a", row[l])) for l in range(L)]
-                if metric == "euclidean":
+                if metric == "euclidean" or L == 1:
                     want = apply_fn("sqrt", sum(((col[l] - av[l]) * (col[l] - av[l]) for l in range(L)), Rat.const(0)))
                 else:
                     d1 = sum((apply_fn("abs", (col[l + 1] - col[l]) - (av[l + 1] - av[l])) for l in range(L - 1)), Rat.const(0)) / (L - 1)
@@ -326,7 +332,7 @@ def _distances(ctx):
                 if not normalise_sqrt(got - want).is_zero() and not got.equals(want):
                     bad = bad or ((c, p), got.fmt()[:240], want.fmt()[:240])
         n += 1
-        ctx.ob("R24.3", name, bad is None, "the distance of candidate c to pillar p is " + ("the Euclidean norm of (pillar - candidate values)" if metric == "euclidean" else "mean |diff(pillar) - diff(candidate)| + |mean(pillar) - mean(candidate)|") + " along the pillar axis, candidate layer l matched with pillar height l" + (f" — differs at {bad[0]}" if bad else ""), bad[1] if bad else f"{len(dist.data)} distances", bad[2] if bad else "documented metric")
+        ctx.ob("R24.3", name, bad is None, "the distance of candidate c to pillar p is " + ("the Euclidean norm of (pillar - candidate values)" if metric == "euclidean" or L == 1 else "mean |diff(pillar) - diff(candidate)| + |mean(pillar) - mean(candidate)|") + " along the pillar axis, candidate layer l matched with pillar height l" + (f" — differs at {bad[0]}" if bad else ""), bad[1] if bad else f"{len(dist.data)} distances", bad[2] if bad else "documented metric")
         # the index is the argmin over the candidate axis
         ok = isinstance(idx, NdArr) and idx.shape == want_shape[1:]
         if ok:
@@ -335,7 +341,7 @@ def _distances(ctx):
                 cands = tuple(to_rat(dist.data[_flat(want_shape, (c,) + p)]) for c in range(len(cand)))
                 ok = ok and v.equals(Rat.atom(("call", "argmin") + cands))
         ctx.ob("R24.3", name + ":argmin", ok, "the returned index is the argmin of exactly these distances over the candidate axis, candidates in table order, per pillar", getattr(idx, "shape", idx), want_shape[1:])
-    ctx.require_count("R24.3 distance cases", n, 6)
+    ctx.require_count("R24.3 distance cases", n, 11)
 
 
 def _writeback(ctx):
